@@ -59,7 +59,7 @@ Proof.
 Qed.
 
 Theorem skip_preserves extras G : valid_grammar G -> pass_preserves extras 1 G.
-Proof. intros [V N] G' H. apply (skip_step_preserves extras G G G'); auto. now apply agrees_self. Qed.
+Proof. intros (V & N & _) G' H. apply (skip_step_preserves extras G G G'); auto. now apply agrees_self. Qed.
 
 (* ---------- literal validity along the pipeline ---------- *)
 Lemma rot_seq_strs l : forall r, estrs (rot_seq l r) = estrs l ++ estrs r.
@@ -152,7 +152,7 @@ Qed.
 (* the composition, outside the lister class *)
 Theorem pipeline_preserves_outside_class extras G : valid_grammar G -> lister_class extras G = false -> pipeline_preserves extras G.
 Proof.
-  intros [V N] L G6 H.
+  intros (V & N & _) L G6 H.
   destruct (optimize_ast_stages _ _ _ H) as (G1 & G2 & G3 & G4 & G5 & H1 & H2 & H3 & H4 & H5 & H6 & F5).
   unfold lister_class in L. rewrite F5 in L.
   assert (V1 := rotate_gvalid _ _ V H1).
@@ -165,4 +165,35 @@ Proof.
   eapply same_meaning_trans; [exact (concat_preserves extras G3 V3 G4 H4)|].
   eapply same_meaning_trans; [exact (factor_preserves extras G4 G5 H5)|].
   exact (list_preserves_outside_class extras G5 L G6 H6).
+Qed.
+
+(* ---------- the conversion: names are kept, no RestoreOnErr yet ---------- *)
+Require Import PV.Opt.RestoreProofs.
+
+Lemma to_optimized_noroe extras : forall e o, to_optimized extras e = Some o -> noroe o.
+Proof.
+  induction e; intros o H; cbn [to_optimized] in H; try (injection H as <-; exact I); try discriminate;
+    try (destruct (to_optimized extras e) as [y|]; [|discriminate]; injection H as <-; cbn; now apply IHe).
+  - destruct (to_optimized extras e1) as [y1|]; [|discriminate]. destruct (to_optimized extras e2) as [y2|]; [|discriminate].
+    injection H as <-. cbn. split; [now apply IHe1|now apply IHe2].
+  - destruct (to_optimized extras e1) as [y1|]; [|discriminate]. destruct (to_optimized extras e2) as [y2|]; [|discriminate].
+    injection H as <-. cbn. split; [now apply IHe1|now apply IHe2].
+  - destruct extras; [|discriminate]. destruct (to_optimized true e) as [y|]; [|discriminate]. injection H as <-. cbn. now apply IHe.
+Qed.
+
+Lemma map_orules_facts extras : forall G OG, map_orules (rule_to_optimized_rule extras) G = Some OG ->
+  map oname OG = map rname G /\ (forall r, In r OG -> noroe (oexpr_of r)).
+Proof.
+  induction G as [|r G IH]; intros OG H; cbn [map_orules] in H.
+  - injection H as <-. split; [reflexivity|intros r []].
+  - unfold rule_to_optimized_rule in H at 1. destruct (to_optimized extras (rexpr r)) as [o|] eqn:E; [|discriminate]. cbn [option_map obind] in H.
+    destruct (map_orules (rule_to_optimized_rule extras) G) as [OG'|]; [|discriminate]. cbn [obind] in H. injection H as <-.
+    destruct (IH _ eq_refl) as [A B]. split; [cbn; now rewrite A|].
+    intros q [<-|Hq]; [cbn; eapply to_optimized_noroe; eauto|now apply B].
+Qed.
+
+Theorem restorer_fixed extras G : valid_grammar G -> forall OG, to_optimized_rules extras true true false G = Some OG -> restorer_ok true true OG.
+Proof.
+  intros (_ & _ & U) OG H. unfold to_optimized_rules in H. destruct (map_orules (rule_to_optimized_rule extras) G) as [OG0|] eqn:E; [|discriminate].
+  injection H as <-. destruct (map_orules_facts _ _ _ E) as [A B]. apply restorer_sound; [|exact B]. rewrite A. exact U.
 Qed.
